@@ -183,6 +183,12 @@ impl Directive {
             Directive::Equ => {
                 if let DirectiveOps::Assign(name, value) = opts {
                     if let Expr::Ident(name) = name {
+                        // the same definition may be read again (a file included twice), another one for the name may not
+                        if context.common_context.exist(name)
+                            && context.common_context.get_equ(name).as_ref() != Some(value)
+                        {
+                            bail!("Identifier {} is used twice, {}", name, point);
+                        }
                         context.common_context.set_equ(name.clone(), value.clone());
                     }
                 } else {
